@@ -47,6 +47,7 @@ pub fn gen_case(t: &mut Tape) -> Case {
     let mut feat = Feat::core();
     feat.boundary_args = true;
     feat.withdrawals = true;
+    feat.output_positions = true;
     feat.mint = true;
     feat.validity = false;
     feat.metadata = false;
